@@ -23,6 +23,9 @@ def apply_events(listed, evs):
 def monitor_ap(chk, case, obs):
     """obs: list of per-op observation strings 'op=res;ev=..;cl=..;L=[..]' from the implementation."""
     listed = set()
+    current = {}          # peer -> connection index currently registered
+    conn_peer = {}
+    m0 = re.search(r"\| (.*)$", case)
     for o in obs:
         m = re.match(r"(.+?)=(.*?);ev=(.*?);cl=(.*?);L=\[(.*?)\](DUP)?$", o)
         if not m:
@@ -38,6 +41,14 @@ def monitor_ap(chk, case, obs):
             chk.monitor_fail("event stream is not an alternating change log after %s: %s" % (op, err), dict(case=case, obs=o))
             return
         entries = [e.split(":") for e in L.split(",") if e]
+        # the end of an older, replaced connection must not disturb its replacement
+        if op.startswith("S"):
+            k = op[1:].split(":")[0]
+            holder = [p for p, c in current.items() if c == k]
+            if not holder and (evs or dict(entries) != current):
+                chk.monitor_fail("the end of connection %s, which is not the registered one, changed the listing (%s -> %s, events %s)" % (k, current, dict(entries), evs), dict(case=case, obs=o))
+                return
+        current = dict(entries)
         if set(p for p, _ in entries) != listed:
             chk.monitor_fail("snapshot + events (%s) differs from the listing (%s) after %s" % (sorted(listed), L, op), dict(case=case, obs=o))
             return
